@@ -50,27 +50,7 @@ func init() {
 			reader.Start(ctx, lcontext.LContext{}, sh.VerifLines(), regex.NewNoop())
 			close(readerDone)
 		}()
-		var frames [][]byte
-		p := make([]byte, bufLen)
-		finished := false
-		for {
-			if sh.VerifReadPending() > 0 || len(sh.VerifLines()) > 0 || len(sh.VerifServerMessages()) > 0 {
-				n, _ := sh.Read(p)
-				if n > 0 {
-					frames = append(frames, append([]byte(nil), p[:n]...))
-				}
-				continue
-			}
-			if finished {
-				break
-			}
-			select {
-			case <-readerDone:
-				finished = true
-			default:
-				time.Sleep(20 * time.Microsecond)
-			}
-		}
+		frames := drainServerHandler(sh, bufLen, readerDone)
 		stream := bytes.Join(frames, nil)
 		ch := clientHandlers.NewClientHandler("vserver")
 		printed := captureStdout(func() {
@@ -100,3 +80,49 @@ func init() {
 	}
 }
 
+// drainServerHandler reads from the real server handler with a transport buffer of bufLen bytes
+// until everything the readers queued has been handed out.  It relies on no internal state of
+// Read: once the readers are done and the queues are empty, a hidden sentinel message is queued;
+// Read hands out what is still pending of the last message before it selects again, so the
+// sentinel is the last thing to arrive.  Its frames are removed from the result.
+func drainServerHandler(sh *serverHandlers.ServerHandler, bufLen int, readersDone <-chan struct{}) [][]byte {
+	sentinel := []byte(".verif end of data\xac")
+	go func() {
+		<-readersDone
+		for len(sh.VerifLines()) > 0 || len(sh.VerifServerMessages()) > 0 {
+			time.Sleep(50 * time.Microsecond)
+		}
+		sh.VerifServerMessages() <- string(sentinel[:len(sentinel)-1])
+	}()
+	var frames [][]byte
+	var tail []byte
+	p := make([]byte, bufLen)
+	deadline := time.Now().Add(60 * time.Second)
+	for time.Now().Before(deadline) {
+		n, _ := sh.Read(p)
+		if n == 0 {
+			continue
+		}
+		frames = append(frames, append([]byte(nil), p[:n]...))
+		tail = append(tail, p[:n]...)
+		if len(tail) > len(sentinel) {
+			tail = tail[len(tail)-len(sentinel):]
+		}
+		if bytes.Equal(tail, sentinel) {
+			break
+		}
+	}
+	// drop the sentinel's frames (a message never shares a Read with another message)
+	rest := len(sentinel)
+	for rest > 0 && len(frames) > 0 {
+		last := frames[len(frames)-1]
+		if len(last) > rest {
+			frames[len(frames)-1] = last[:len(last)-rest]
+			rest = 0
+		} else {
+			rest -= len(last)
+			frames = frames[:len(frames)-1]
+		}
+	}
+	return frames
+}
